@@ -447,6 +447,8 @@ class Builder:
                 out.add(s)
             elif kind == "sep":
                 self.seps.add(e.value)
+                if s.last != FACTOR:
+                    self.event("misplaced-sep", node, s)  # ".m" / "m..s": a separator with no factor before it
                 out.add(s.with_(last=SEP))
             elif kind == "slash":
                 self.seps.add(e.value)
